@@ -22,7 +22,7 @@ RULE = (
     "case = (structure definition as JSON: 1-5 type names, acyclic relation graph from __root__ in which a child type "
     "may occur under several parents, fixed counts 0-3 or RangeRandomizer counts, `types` defaults incl. '*', "
     "relation specs overriding them, {idx}/{hier_idx} templates, every Randomizer class, probabilities in "
-    "{0.25,0.5,1.0}, optional :factory / :callback; integer seed; Tree or TypedTree or a user subclass of either; a quarter of the relation graphs are recursive (a type that may contain itself); in two cases of five after an earlier build of another definition that failed three levels down (unknown macro name / raising callback); built twice from the same "
+    "{0, 0.25, 0.5, 1.0}, optional :factory / :callback; integer seed; Tree or TypedTree or a user subclass of either; a quarter of the relation graphs are recursive (a type that may contain itself); in two cases of five after an earlier build of another definition that failed three levels down (unknown macro name / raising callback); built twice from the same "
     "definition object). Oracle: validity predicate over the result (class, name, child types allowed by the "
     "relations, per-relation counts, merged attributes with expanded templates, randomized values inside declared "
     "ranges, skipped attributes absent, probability-1 attributes present, kind == type name). Non-trivial: >= 2 "
@@ -51,6 +51,8 @@ def mk_attr(spec):
     k = spec[0]
     if k == "const":
         return spec[1]
+    if k == "none":
+        return None
     if k == "range":
         lo, hi, prob = spec[1], spec[2], spec[3]
         kw = {"probability": prob}
@@ -117,6 +119,21 @@ def check_value(rec, where, key, spec, present, val, idx, hier):
             rec.fail(f"attr:{k}:missing-although-probability-1", [where, key, spec])
         return present
 
+    # probability 0: the value is never generated (a range with none_value then yields that value)
+    prob_at = {"range": 3, "date": 4, "value": 2, "sparse": 1, "sample": 3, "text": 2, "blind": 1}.get(k)
+    if prob_at is not None and spec[prob_at] == 0.0:
+        none_value = spec[4] if k == "range" and len(spec) > 4 else None
+        if none_value is not None:
+            if not present or val != none_value:
+                rec.fail("attr:probability-0:none_value-expected", [where, key, repr(val), spec])
+        elif present:
+            rec.fail(f"attr:{k}:present-although-probability-0", [where, key, repr(val), spec])
+        return
+    if k == "none":
+        # a static attribute whose value is None is an attribute like any other
+        if not present or val is not None:
+            rec.fail("attr:static-None:missing-or-changed", [where, key, present, repr(val)])
+        return
     if k == "const":
         if not present:
             rec.fail("attr:const:missing", [where, key])
@@ -236,6 +253,8 @@ def validate(rec, case, tree, which):
             else:
                 _, lo, hi, prob = cnt
                 ok = lo <= len(grp) <= hi or (prob < 1.0 and len(grp) == 0)
+                if prob == 0.0:
+                    ok = len(grp) == 0  # never generated
                 if not ok:
                     rec.fail("count:range", [which, pwhere, ctype, len(grp), cnt])
                     return
@@ -262,7 +281,7 @@ def validate(rec, case, tree, which):
                         continue
                     present = key in attrs
                     val = attrs.get(key)
-                    if present and val is None:
+                    if present and val is None and aspec[0] != "none":
                         rec.fail("attr:None-valued", [which, where, key])
                         continue
                     check_value(rec, f"{which}:{where}", key, aspec, present, val, i, hier)
@@ -318,12 +337,14 @@ def run(case, rec):
 
 
 # ---------------------------------------------------------------------------------
-PROBS = [0.25, 0.5, 1.0, 1.0]
+PROBS = [0.25, 0.5, 1.0, 1.0, 0.0]
 
 
 @st.composite
 def attr_spec(draw):
-    k = draw(st.sampled_from(["const", "const", "template", "range", "rangef", "date", "value", "sparse", "sample", "text", "blind"]))
+    k = draw(st.sampled_from(["const", "const", "template", "range", "rangef", "date", "value", "sparse", "sample", "text", "blind", "none"]))
+    if k == "none":
+        return ["none"]
     p = draw(st.sampled_from(PROBS))
     if k == "const":
         return ["const", draw(st.one_of(st.integers(-3, 3), st.booleans(), st.sampled_from(["s", "t u", ""]), st.floats(0, 1, allow_nan=False)))]
